@@ -94,7 +94,18 @@ type c11gen struct {
 func (g *c11gen) link() datamodel.Link {
 	b := make([]byte, 8)
 	g.rng.Read(b)
-	bd := cid.V1Builder{MhLength: -1, MhType: uint64(multicodec.Sha2_256), Codec: uint64(multicodec.DagCbor)}
+	// links are CIDs of any codec / hash function (the schema says Link, not "dag-cbor sha2-256 link"): mostly what the
+	// archives use, sometimes raw or dag-pb, sometimes a sha2-512 digest
+	codec, mh := uint64(multicodec.DagCbor), uint64(multicodec.Sha2_256)
+	switch g.rng.Intn(8) {
+	case 0:
+		codec = uint64(multicodec.Raw)
+	case 1:
+		codec = uint64(multicodec.DagPb)
+	case 2:
+		mh = uint64(multicodec.Sha2_512)
+	}
+	bd := cid.V1Builder{MhLength: -1, MhType: mh, Codec: codec}
 	c, _ := bd.Sum(b)
 	return cidlink.Link{Cid: c}
 }
